@@ -619,13 +619,26 @@ def run_history(ctx, stream, hist, lines, expect, judge=True, extra_every=7):
     return nonempty_answers
 
 
+def canon_line(line):
+    """Order-insensitive form of a driver / implementation line: the theorems speak about sets
+    (plus "no duplicates"), so lists are compared as sorted multisets - child names, table keys,
+    interface names, reply entries.  Duplicates survive the sorting."""
+    toks = []
+    for tok in line.split(' '):
+        ents = []
+        for ent in tok.split(';'):
+            ents.append(':'.join(','.join(sorted(f.split(','))) for f in ent.split(':')))
+        toks.append(';'.join(sorted(ents)))
+    return ' '.join(toks)
+
+
 def compare(ctx, lines, expect):
     out = ctx.model(lines)
     if out is None:
         return
     seen = set()
     for (stream, hist, step_no, what, impl), m in zip(expect, out):
-        if m != impl:
+        if canon_line(m) != canon_line(impl):
             key = (id(hist), what[0])
             if key in seen:
                 continue
@@ -696,7 +709,7 @@ def run(ctx):
 
     rng = ctx.rng
     # ---- the fixed universe with parents, children, grandchildren, prefix-sharing siblings, the root
-    n = ctx.scale(quick=20, thorough=160)
+    n = ctx.scale(quick=16, thorough=160)
     hs = []
     for i in range(n):
         uni = FIXED_UNIVERSE if i % 2 == 0 else sorted(rng.sample(FIXED_UNIVERSE, rng.randrange(4, 9)) + (['/'] if i % 4 == 1 else []))
@@ -705,7 +718,7 @@ def run(ctx):
     run_batch(ctx, 'history-fixed-universe', hs)
 
     # ---- random universes
-    n = ctx.scale(quick=40, thorough=400)
+    n = ctx.scale(quick=30, thorough=400)
     hs = []
     for i in range(n):
         uni, shape = gen_universe(rng)
